@@ -5,6 +5,8 @@ CONSTANTS
   Coefs <- CoefsT
   MaxReac = 3
   MaxProd = 2
+  MaxIReac = 0
+  MaxIProd = 0
   Kinds = {"Reaction", "Equilibrium"}
 INVARIANT NamesInOrder
 INVARIANT NoUnitCoef
